@@ -612,6 +612,9 @@ func (e *Engine) evalCall(s *State, c *SpecCtx, n *ast.CallExpr) *SV {
 		c2.Bound[id] = &SV{V: &Val{L: []string{q}}, Sort: "Str", T: types.Typ[types.String]}
 		body := e.evalBool(s, &c2, n.Args[1])
 		return svBool(fmt.Sprintf("(forall ((%s Str)) %s)", q, body))
+	case "member":
+		// member(S, k): k is in the set S (a dom(...) or visited(...) value)
+		return svBool(app("select", arg(0).V.L[0], arg(1).V.L[0]))
 	case "vals":
 		m := arg(0)
 		mt := m.T.Underlying().(*types.Map)
